@@ -381,3 +381,27 @@ pub async fn set_confirmations_with_retry(
         }
     }
 }
+
+/// Verification hook (compiled only with `--cfg sierradb_verif`): runs the coordinator's `run`
+/// (local append, replication, quorum collection) and reports the append together with the
+/// number of confirmations (the coordinator included) it would persist and acknowledge.
+#[cfg(sierradb_verif)]
+pub async fn verif_run(
+    database: &Database,
+    local_cluster_ref: &RemoteActorRef<ClusterActor>,
+    local_alive_since: u64,
+    replicas: ReplicaRefs,
+    replication_factor: u8,
+    transaction: Transaction,
+) -> Result<(AppendResult, u8), WriteError> {
+    run(
+        database,
+        local_cluster_ref,
+        local_alive_since,
+        replicas,
+        replication_factor,
+        transaction,
+    )
+    .await
+    .map(|(append, confirmed, _pending)| (append, confirmed.len() as u8))
+}
